@@ -24,6 +24,9 @@ type simcfg struct {
 	fairTail int
 	cache    int
 	faults   bool
+	dagrun   bool
+	witness  bool
+	thorough bool
 }
 
 type hist struct {
@@ -45,6 +48,7 @@ type hist struct {
 	leaving          map[int]bool
 	nextNodeID       int
 	weights          []float64
+	witnessBatch     int
 }
 
 func (h *hist) pull(a, b *hx.Node, limit int, lose bool) {
@@ -371,6 +375,12 @@ func runHistory(out *bufio.Writer, seed int64, hid int, cfg simcfg) (stats map[s
 		}
 	}
 	h.finalOracles()
+	if cfg.dagrun {
+		h.dagrun(cfg.thorough)
+	}
+	if cfg.witness {
+		h.findBatchWitness()
+	}
 	ev := 0
 	for _, nd := range h.nodes {
 		n := 0
@@ -407,6 +417,9 @@ func main() {
 	cache := flag.Int("cache", 10000, "store cache size")
 	dyn := flag.Bool("dyn", false, "joins and leaves")
 	faults := flag.Bool("faults", false, "inject store failures on new-event writes")
+	dagrun := flag.Bool("dagrun", false, "C03: re-feed the global DAG under orders / cuts / stores / batchings")
+	thorough := flag.Bool("thorough", false, "more variants")
+	witness := flag.Bool("c03witness", false, "search a minimal batching witness")
 	flag.Parse()
 	out := bufio.NewWriterSize(os.Stdout, 1<<20)
 	defer out.Flush()
@@ -416,7 +429,7 @@ func main() {
 		if i%7 != 0 && n < 3 && *maxn >= 3 {
 			n = 3 + master.Intn(*maxn-2)
 		}
-		cfg := simcfg{n: n, steps: *steps/2 + master.Intn(*steps), dyn: *dyn, fairTail: *tail, cache: *cache, faults: *faults}
+		cfg := simcfg{n: n, steps: *steps/2 + master.Intn(*steps), dyn: *dyn, fairTail: *tail, cache: *cache, faults: *faults, dagrun: *dagrun, thorough: *thorough, witness: *witness}
 		runHistory(out, master.Int63(), i, cfg)
 	}
 }
